@@ -155,7 +155,7 @@ def validate_trace(trace_path, workdir, name, spec="PropTrace", cfgfile="PropTra
     nlines = sum(1 for _ in open(trace_path))
     if nlines == 0:
         return {"viol": [], "states": 0, "transitions": 0, "done": True, "lines": 0}
-    rc, out = tlc(spec + ".tla", cfgfile, d, workers=1, timeout=3600, javaopts=["-Xss64m"])
+    rc, out = tlc(spec + ".tla", cfgfile, d, workers=1, timeout=3600, javaopts=["-Xss64m", "-XX:ParallelGCThreads=4", "-XX:CICompilerCount=3"])
     viol = [dict(tid=int(a), prop=b, c=c, i=int(i), code=e) for a, b, c, i, e in VIOL_RE.findall(out)]
     done = ('<<"DONE", %d>>' % nlines) in out
     st, tr = tlc_stats(out)
@@ -171,43 +171,69 @@ def chunks(lst, n):
     return [lst[i:i + k] for i in range(0, len(lst), k)]
 
 
-def replay_and_validate(cfg, scenarios, workdir, tag, par=None):
-    """Replays scenarios on the real proxy (several workers in parallel) and validates every trace with TLC.
-    Returns dict with violations (each with the scenario attached), counts and TLC statistics."""
+def replay_and_validate(cfg, scenarios, workdir, tag, par=None, spec="PropTrace", cfgfile="PropTrace.cfg", consts=None,
+                        binary="worker", events_per_tlc=60000):
+    """Replays scenarios on the real proxy (several workers in parallel) and validates every trace with TLC
+    (few JVMs, many traces each). Returns violations (each with its scenario attached), counts and TLC statistics."""
     par = par or NCPU
     parts = chunks(scenarios, par) if scenarios else []
     res = {"viol": [], "states": 0, "transitions": 0, "traces": 0, "events": 0, "crashes": 0, "dead": 0,
            "unrealised": 0, "harness_errors": []}
 
     def one(ix):
-        part = parts[ix]
-        name = "%s-%d" % (tag, ix)
-        trace, info = run_worker(cfg, part, workdir, name)
-        if info["harness_errors"]:
-            return ix, None, info
-        v = validate_trace(trace, workdir, name)
-        os.remove(trace)
-        return ix, v, info
+        return run_worker(cfg, parts[ix], workdir, "%s-%d" % (tag, ix), binary=binary)
 
     with ThreadPoolExecutor(max_workers=par) as ex:
-        for ix, v, info in ex.map(one, range(len(parts))):
-            if v is None:
-                res["harness_errors"] += info["harness_errors"]
-                continue
+        outs = list(ex.map(one, range(len(parts))))
+
+    # merge the per-worker traces into few files with globally unique trace ids
+    merged, cur, curn, base = [], None, 0, 0
+    index = {}  # global tid -> scenario
+    for ix, (trace, info) in enumerate(outs):
+        if info["harness_errors"]:
+            res["harness_errors"] += info["harness_errors"]
+        res["crashes"] += len(info["crashes"])
+        res["dead"] += len(info["dead"])
+        res["unrealised"] += info["unrealised"]
+        if cur is None or curn > events_per_tlc:
+            path = os.path.join(workdir, "%s-merged-%d.ndjson" % (tag, len(merged)))
+            cur = open(path, "w")
+            merged.append(path)
+            curn = 0
+        seen_tids = set()
+        with open(trace) as f:
+            for ln in f:
+                # lines start with {"tid":N,
+                j = ln.index(",")
+                t = int(ln[7:j])
+                cur.write('{"tid":%d%s' % (base + t, ln[j:]))
+                curn += 1
+                seen_tids.add(t)
+        for t in seen_tids:
+            if 0 < t <= len(parts[ix]):
+                index[base + t] = parts[ix][t - 1]
+        res["traces"] += len(seen_tids)
+        base += len(parts[ix])
+        os.remove(trace)
+    if cur:
+        cur.close()
+    if res["harness_errors"] and res["traces"] == 0:
+        raise Inconclusive("no scenario could be replayed: " + "; ".join(res["harness_errors"][:3]))
+
+    def val(k):
+        return validate_trace(merged[k], workdir, "%s-v%d" % (tag, k), spec=spec, cfgfile=cfgfile, consts=consts)
+
+    with ThreadPoolExecutor(max_workers=4) as ex:
+        for k, v in enumerate(ex.map(val, range(len(merged)))):
             res["states"] += v["states"]
             res["transitions"] += v["transitions"]
             res["events"] += v["lines"]
-            res["traces"] += len(parts[ix])
-            res["crashes"] += len(info["crashes"])
-            res["dead"] += len(info["dead"])
-            res["unrealised"] += info["unrealised"]
             for x in v["viol"]:
                 x = dict(x)
-                x["scenario"] = parts[ix][x["tid"] - 1] if 0 < x["tid"] <= len(parts[ix]) else None
+                x["scenario"] = index.get(x["tid"])
                 x["cfg"] = cfg
                 res["viol"].append(x)
-    if res["harness_errors"] and res["traces"] == 0:
-        raise Inconclusive("no scenario could be replayed: " + "; ".join(res["harness_errors"][:3]))
+            os.remove(merged[k])
     return res
 
 
